@@ -26,6 +26,7 @@ pub enum Family {
   Huge,
   ModDense,
   Siblings,
+  Roles,
 }
 
 #[derive(Clone, Copy, Debug)]
@@ -421,6 +422,111 @@ pub fn gen_siblings(src: &mut Src, opts: &LayoutOpts) -> GenLayout {
   finish(src, layout, "siblings", &keys, opts, src_flag_foreign(opts))
 }
 
+// *roles*: 3-5 mappings, each an instance of one of the mapping shapes that the README and the
+// built-in layouts are made of, over a pool of five or six keys (one or two standard modifiers,
+// one layer-like key, two or three letters): a chord that keeps its own modifier
+// ([Shift,X] -> [Shift,tag]), a chord that drops it, a plain key that brings a modifier, a
+// modifier remap ([CAPSLOCK] -> [Shift]), a layer key mapped to nothing, a chord that types
+// another key of the pool, a key that absorbs itself, a chord that ends in a modifier, a
+// no-repeat key, a two-modifier chord, a swap. Unlike in the other families the output of a
+// mapping is correlated with its own trigger and with the triggers of the others (the user's own
+// modifier and a mapping's modifier are the same key; an output key is somebody's trigger), and
+// every key is pressable - the relations between three or four *realistic* mappings that the
+// other families produce only by accident, in a space small enough for the sweep.
+pub fn gen_roles(src: &mut Src, opts: &LayoutOpts) -> GenLayout {
+  let std = src.distinct(&[LEFTSHIFT, RIGHTALT, LEFTCTRL, RIGHTSHIFT], 2);
+  let (s1, s2) = (std[0], std[1]);
+  let layer = src.pick(&[CAPSLOCK, TAB, Z, F]);
+  let letters = src.distinct(&[A, B, Q, J], 3);
+  // the pool: s1, layer, two letters; plus s2, a third letter or both
+  let extra = src.weighted(&[35, 35, 30]);
+  let mut mods: Vec<KeyCode> = vec![s1];
+  let mut lets: Vec<KeyCode> = vec![letters[0], letters[1]];
+  if extra == 0 || extra == 2 {
+    mods.push(s2);
+  }
+  if extra == 1 || extra == 2 {
+    lets.push(letters[2]);
+  }
+  let m_out = src.pick(&[LEFTALT, LEFTMETA, RIGHTCTRL]);
+  let mut holdable: Vec<KeyCode> = mods.clone(); // keys used as the held part of a chord
+  holdable.push(layer);
+  let mut pool: Vec<KeyCode> = holdable.clone();
+  pool.extend(lets.iter().cloned());
+  let out_mods: Vec<KeyCode> = { let mut v = mods.clone(); v.push(m_out); v };
+  let n = src.range(3, 5);
+  let mut mappings: Vec<Mapping> = Vec::new();
+  let mut next_tag = 0usize;
+  for i in 0..n {
+    if next_tag + 1 >= TAGS.len() {
+      break;
+    }
+    let p = if src.chance(70) { src.pick(&mods) } else { src.pick(&holdable) };
+    let x = if src.chance(85) { src.pick(&lets) } else { src.pick(&pool) };
+    let others: Vec<KeyCode> = pool.iter().cloned().filter(|k| *k != x && *k != p).collect();
+    let y = src.pick(&others);
+    let q = src.pick(&out_mods);
+    let mut tag = || {
+      next_tag += 1;
+      TAGS[next_tag - 1]
+    };
+    let mut absorbing: Vec<KeyCode> = Vec::new();
+    let mut norepeat = false;
+    let (mut from, to): (Vec<KeyCode>, Vec<KeyCode>) = match src.weighted(&[14, 10, 12, 12, 5, 8, 8, 8, 8, 6, 5, 4]) {
+      0 => (vec![p, x], vec![p, tag()]),
+      1 => (vec![x], vec![q, tag()]),
+      2 => (vec![if src.chance(50) { layer } else { x }], vec![q]),
+      3 => (vec![p, x], vec![tag()]),
+      4 => (vec![layer], vec![]),
+      5 => (vec![p, x], vec![y]),
+      6 => {
+        if opts.allow_absorbing {
+          absorbing.push(y);
+          (vec![y, x], vec![y])
+        } else {
+          (vec![y, x], vec![y, tag()])
+        }
+      }
+      7 => (vec![p, x], vec![q]),
+      8 => {
+        norepeat = true;
+        (vec![x], if src.chance(50) { vec![y] } else { vec![tag()] })
+      }
+      9 => {
+        let p2 = src.pick(&others.iter().cloned().filter(|k| holdable.contains(k)).collect::<Vec<_>>().iter().cloned().chain(std::iter::once(y)).collect::<Vec<_>>());
+        (vec![p, p2, x], if src.chance(50) { vec![tag()] } else { vec![p, tag()] })
+      }
+      10 => (vec![x], vec![tag()]),
+      _ => (vec![x], vec![y]),
+    };
+    if x == p {
+      // (x was drawn from the whole pool) a chord cannot hold its own final key
+      from.retain(|k| *k != p);
+      from.push(x);
+    }
+    let mut to_d: Vec<KeyCode> = Vec::new();
+    for k in to {
+      if !to_d.contains(&k) {
+        to_d.push(k);
+      }
+    }
+    if opts.allow_absorbing && absorbing.is_empty() && from.len() > 1 && src.chance(25) {
+      for k in &from[..from.len() - 1] {
+        if src.chance(70) {
+          absorbing.push(*k);
+        }
+      }
+      if absorbing.is_empty() {
+        absorbing.push(from[0]);
+      }
+    }
+    let repeat = if norepeat { gen_repeat(src, &[s1, F1, m_out], &[0, 55, 45], i as i32) } else { gen_repeat(src, &[s1, F1, m_out], &[88, 5, 7], i as i32) };
+    mappings.push(Mapping { from, to: to_d, repeat, absorbing });
+  }
+  let layout = Layout { mappings };
+  finish(src, layout, "roles", &pool, opts, src_flag_foreign(opts))
+}
+
 fn src_flag_foreign(opts: &LayoutOpts) -> bool {
   opts.max_alphabet > 4
 }
@@ -439,6 +545,7 @@ pub fn gen_family(src: &mut Src, fam: Family, opts: &LayoutOpts) -> GenLayout {
     Family::Huge => gen_huge(src, opts),
     Family::ModDense => gen_mod_dense(src, opts),
     Family::Siblings => gen_siblings(src, opts),
+    Family::Roles => gen_roles(src, opts),
   };
   // key-code diversity: the small readable pools are relabelled onto the whole key space
   if fam != Family::Huge && src.chance(35) {
